@@ -325,10 +325,32 @@ class SymWorld(BaseWorld):
         """Sum_{lo <= j < hi} f(j)"""
         return self.sum([(tag, lo, hi)], lambda idx: f(idx[0]))
 
-    def lemma_sum_ext(self, name, lo, hi, f, g):
-        """SUM-EXT: pointwise equal on [lo,hi)  =>  equal sums"""
-        self.forall_range(f"{name}.pointwise", [(lo, hi)], lambda idx: self.num_eq(f(idx[0]), g(idx[0])), kind="lemma-premise")
+    def lemma_sum_ext(self, name, lo, hi, f, g, using=None):
+        """SUM-EXT: pointwise equal on [lo,hi)  =>  equal sums.  `using(j)` may add instances of
+        already established universal facts at the Skolem index before the premise is proved."""
+        if using is None:
+            self.forall_range(f"{name}.pointwise", [(lo, hi)], lambda idx: self.num_eq(f(idx[0]), g(idx[0])), kind="lemma-premise")
+        else:
+            j = self.fresh_int("ext_j", lo, hi)
+            using(j)
+            self.prove(f"{name}.pointwise", self.num_eq(f(j), g(j)), kind="lemma-premise")
         self.c.assume(to_real(self.sum1("e", lo, hi, f)) == to_real(self.sum1("e", lo, hi, g)), why="SUM-EXT")
+
+    def lemma_tri_unique(self, name, n, row_x, row_y, diag_nonzero, x, y):
+        """TRI-UNIQUE: two solutions of a lower-triangular system with non-zero diagonal agree.
+        row_x(k), row_y(k): the k-th row equation for x resp. y (may apply further lemmas).
+        Returns agree(k): adds the conclusion x(k) == y(k) for an index term k (valid for 0 <= k < n)."""
+        k = self.fresh_int("tu_k", 0, n)
+        self.prove(f"{name}.rows_hold_for_first", row_x(k), kind="lemma-premise")
+        k = self.fresh_int("tu_k", 0, n)
+        self.prove(f"{name}.rows_hold_for_second", row_y(k), kind="lemma-premise")
+        k = self.fresh_int("tu_k", 0, n)
+        self.prove(f"{name}.nonzero_diagonal", diag_nonzero(k), kind="lemma-premise")
+
+        def agree(k):
+            self.c.assume(z3.Implies(z3.And(to_int(k) >= 0, to_int(k) < to_int(n)), to_real(x(k)) == to_real(y(k))), why="TRI-UNIQUE")
+
+        return agree
 
     def lemma_sum_delta(self, name, lo, hi, t, X):
         """SUM-DELTA: Sum_j [j == t] * X = X for lo <= t < hi"""
@@ -437,7 +459,7 @@ class ConcWorld(BaseWorld):
 
         tag = tag or letter
         if n is None:
-            n = self.sizes.get(tag)
+            n = self.sizes.get(tag) or self._used_sizes.get(tag)
         if n is None:
             n = max(lo, self.rng.choice([4, 5, 6] if self.big else [1, 2, 3]) if self.default_size is None else self.default_size)
         n = max(int(n), lo)
@@ -584,8 +606,13 @@ class ConcWorld(BaseWorld):
     def sum1(self, tag, lo, hi, f):
         return self.sum([(tag, lo, hi)], lambda idx: f(idx[0]))
 
-    def lemma_sum_ext(self, name, lo, hi, f, g):
+    def lemma_sum_ext(self, name, lo, hi, f, g, using=None):
         self.forall_range(f"{name}.pointwise", [(lo, hi)], lambda idx: self.num_eq(f(idx[0]), g(idx[0])))
+
+    def lemma_tri_unique(self, name, n, row_x, row_y, diag_nonzero, x, y):
+        self.forall_range(f"{name}.rows_hold_for_first", [(0, n)], lambda idx: row_x(idx[0]))
+        self.forall_range(f"{name}.rows_hold_for_second", [(0, n)], lambda idx: row_y(idx[0]))
+        return lambda k: None
 
     def lemma_sum_delta(self, name, lo, hi, t, X):
         self.prove(f"{name}.in_range", int(lo) <= int(t) < int(hi))
